@@ -929,4 +929,106 @@ theorem versionsKept_trans (a b c : Storage) (h1 : VersionsKept a b) (h2 : Versi
   obtain ⟨v2, hv2, e2, l2⟩ := h2 k v1 hv1
   exact ⟨v2, hv2, e2.trans e1, Nat.le_trans l1 l2⟩
 
+/-! ### lifetimes: when a value was stored and for how long -/
+
+def Storage.Timed (now : Nat) (s : Storage) : Prop :=
+  ∀ k, ∀ v ∈ s.getItems k, v.lastUpdate ≤ now ∧ v.maxAge ≤ Gen.maxEntryAge
+
+theorem storeMaxAge_le (nc : Nat) : Gen.storeMaxAge nc ≤ Gen.maxEntryAge := by
+  unfold Gen.storeMaxAge
+  have h := Int.ediv_le_self ((2 : Int) ^ Int.toNat (max (0 : Int) (((nc : Int) - (Gen.targetNodes : Int)) + (1 : Int))))
+    (Int.natCast_nonneg Gen.maxEntryAge)
+  omega
+
+theorem timed_mono (s : Storage) (a b : Nat) (hab : a ≤ b) (h : s.Timed a) : s.Timed b :=
+  fun k v hv => ⟨Nat.le_trans (h k v hv).1 hab, (h k v hv).2⟩
+
+theorem timed_put (s : Storage) (now key : Nat) (nv : Value) (h : s.Timed now)
+    (hn : nv.lastUpdate ≤ now ∧ nv.maxAge ≤ Gen.maxEntryAge) : (s.put key nv).Timed now := by
+  intro k v hv
+  unfold Storage.put at hv
+  rw [getItems_setItems] at hv
+  split at hv
+  · rcases mem_putItems key nv _ v hv with rfl | h1
+    · exact hn
+    · exact h key v h1
+  · exact h k v hv
+
+theorem timed_clean (s : Storage) (now t : Nat) (h : s.Timed now) : (s.clean t).Timed now := by
+  intro k v hv
+  rw [getItems_clean] at hv
+  exact h k v ((cleanItems_sublist t _).subset hv)
+
+theorem timed_addValue {Tok : Type} (C : Crypto Tok) (now key : Nat) (b : Blob) (maxAge : Nat) (s s' : Storage)
+    (h : s.Timed now) (hm : maxAge ≤ Gen.maxEntryAge) (he : addValue C now key b maxAge s = some s') :
+    s'.Timed now := by
+  unfold addValue at he
+  split at he
+  · simp at he
+  · simp only [Option.some.injEq] at he; rw [← he]; exact h
+  · simp only [Option.some.injEq] at he; rw [← he]
+    exact timed_put s now key _ h ⟨Nat.le_refl _, hm⟩
+
+theorem timed_addValues {Tok : Type} (C : Crypto Tok) (now key maxAge : Nat) (bs : List Blob) (s : Storage)
+    (h : s.Timed now) (hm : maxAge ≤ Gen.maxEntryAge) : (addValues C now key maxAge bs s).1.Timed now := by
+  induction bs generalizing s with
+  | nil => simpa [addValues] using h
+  | cons b bs ih =>
+    simp only [addValues]
+    split
+    · exact h
+    · rename_i s' he
+      exact ih s' (timed_addValue C now key b maxAge s s' h hm he)
+
+theorem timed_tick1 (n : Node) (h : n.store.Timed n.now) : n.tick1.store.Timed n.tick1.now := by
+  unfold Node.tick1 Node.fireClean
+  have hr : ∀ m : Node, m.fireRotate.store = m.store ∧ m.fireRotate.now = m.now := by
+    intro m; unfold Node.fireRotate; split <;> simp [Node.rotate]
+  obtain ⟨e1, e2⟩ := hr { n with now := n.now + 1 }
+  simp only at e1 e2
+  have h' : n.store.Timed (n.now + 1) := timed_mono _ _ _ (Nat.le_succ _) h
+  split
+  · simp only [Node.clean]
+    rw [e1, e2]
+    exact timed_clean _ _ _ h'
+  · rw [e1, e2]; exact h'
+
+theorem timed_step {Tok : Type} [DecidableEq Tok] (C : Crypto Tok) (n : Node) (op : Op Tok)
+    (h : n.store.Timed n.now) : (n.step C op).store.Timed (n.step C op).now := by
+  cases op with
+  | adv dt =>
+    simp only [Node.step]
+    induction dt generalizing n with
+    | zero => exact h
+    | succ k ih => exact ih _ (timed_tick1 n h)
+  | rotate => exact h
+  | clean => exact timed_clean _ _ _ h
+  | find w nid t o f =>
+    simp only [Node.step, Node.findReq]
+    split <;> exact h
+  | store r =>
+    simp only [Node.step, Node.storeReq]
+    split
+    · exact h
+    · split
+      · exact h
+      · exact timed_addValues C _ _ _ _ _ h (storeMaxAge_le _)
+  | storePeer w tok t =>
+    simp only [Node.step, Node.storePeerReq]
+    split <;> exact h
+  | ping nid =>
+    simp only [Node.step, Node.pingReq]
+    split <;> exact h
+  | cache key values loc =>
+    simp only [Node.step, Node.cacheStore]
+    split
+    · exact timed_addValues C _ _ _ _ _ h (Nat.le_refl _)
+    · exact h
+
+theorem timed_run {Tok : Type} [DecidableEq Tok] (C : Crypto Tok) (ops : List (Op Tok)) (n : Node)
+    (h : n.store.Timed n.now) : (n.run C ops).store.Timed (n.run C ops).now := by
+  induction ops generalizing n with
+  | nil => exact h
+  | cons op ops ih => exact ih _ (timed_step C n op h)
+
 end Ipv8.C15
